@@ -126,6 +126,67 @@ where
     })
 }
 
+/// A future on which a builder method is called *late*: after `at` polls, i.e.
+/// possibly after the kernel has already answered. The library ignores builder
+/// calls once the request has been submitted; what the kernel was asked for and
+/// how its answer is wrapped must not drift apart.
+struct LateTask<F, M> {
+    fut: Option<F>,
+    map: M,
+    polls: u32,
+    late: Option<(u32, fn(F) -> F)>,
+}
+
+impl<F, M> DynTask for LateTask<F, M>
+where
+    F: Future + Unpin,
+    M: FnMut(F::Output, &mut Vec<Produced>) -> Out,
+{
+    fn poll(&mut self, cx: &mut Context<'_>, produced: &mut Vec<Produced>) -> Poll<Option<Out>> {
+        if let Some((at, f)) = self.late {
+            if self.polls == at {
+                let fut = self.fut.take().expect("task polled after drop");
+                crate::ev!("h late builder call after {at} poll(s)");
+                crate::stats::inc(crate::stats::C::probe_late_builder_call);
+                let op = kernel::cur_op();
+                kernel::with(|k| k.late_builder_ops.push(op));
+                self.fut = Some(alloc::a10(|| f(fut)));
+            }
+        }
+        self.polls += 1;
+        let fut = self.fut.as_mut().expect("task polled after drop");
+        match alloc::a10(|| Pin::new(fut).poll(cx)) {
+            Poll::Ready(o) => Poll::Ready(Some(alloc::a10(|| (self.map)(o, produced)))),
+            Poll::Pending => Poll::Pending,
+        }
+    }
+
+    fn is_iter(&self) -> bool {
+        false
+    }
+}
+
+impl<F, M> Drop for LateTask<F, M> {
+    fn drop(&mut self) {
+        alloc::a10(|| drop(self.fut.take()));
+    }
+}
+
+unsafe impl<F, M> Send for LateTask<F, M> {}
+
+fn fut_late<F, M>(f: F, map: M, late: Option<(u32, fn(F) -> F)>) -> Box<dyn DynTask>
+where
+    F: Future + Unpin + 'static,
+    M: FnMut(F::Output, &mut Vec<Produced>) -> Out + 'static,
+{
+    Box::new(LateTask {
+        fut: Some(f),
+        map,
+        polls: 0,
+        late,
+    })
+}
+
 fn iter<I, T, P, M>(i: I, poll_next: P, map: M) -> Box<dyn DynTask>
 where
     I: 'static,
@@ -1107,13 +1168,29 @@ pub fn make(w: &mut World, kind: Kind, fd: Option<usize>, pool: Option<usize>, t
                 );
                 if kind == Kind::SocketDirect { s.kind(a10::fd::Kind::Direct) } else { s }
             });
-            (
-                fut(fut_, |o, prod| {
-                    io_err(o).map(|fd| {
-                        let (n, d) = take_fd(fd, prod);
-                        Val::Fd(n, d)
+            // Now and then the other kind is asked for when it is too late.
+            let late: Option<(u32, fn(a10::net::Socket) -> a10::net::Socket)> =
+                if w.direct_enabled && tape::chance(site::OPKIND, 1, 4) {
+                    let at = 1 + tape::choose(site::OPKIND, 2);
+                    Some(if kind == Kind::SocketDirect {
+                        (at, |s| s.kind(a10::fd::Kind::File))
+                    } else {
+                        (at, |s| s.kind(a10::fd::Kind::Direct))
                     })
-                }),
+                } else {
+                    None
+                };
+            (
+                fut_late(
+                    fut_,
+                    |o, prod| {
+                        io_err(o).map(|fd| {
+                            let (n, d) = take_fd(fd, prod);
+                            Val::Fd(n, d)
+                        })
+                    },
+                    late,
+                ),
                 exp(|rec, i, _, _| {
                     let (n, d) = exp_fd(rec, i);
                     Val::Fd(n, d)
@@ -1125,14 +1202,29 @@ pub fn make(w: &mut World, kind: Kind, fd: Option<usize>, pool: Option<usize>, t
                 let p = a10::pipe::pipe(sq);
                 if kind == Kind::PipeDirect { p.kind(a10::fd::Kind::Direct) } else { p }
             });
-            (
-                fut(fut_, |o, prod| {
-                    io_err(o).map(|[r, w_]| {
-                        let a = take_fd(r, prod);
-                        let b = take_fd(w_, prod);
-                        Val::Fds(vec![a, b])
+            let late: Option<(u32, fn(a10::pipe::Pipe) -> a10::pipe::Pipe)> =
+                if w.direct_enabled && tape::chance(site::OPKIND, 1, 4) {
+                    let at = 1 + tape::choose(site::OPKIND, 2);
+                    Some(if kind == Kind::PipeDirect {
+                        (at, |p| p.kind(a10::fd::Kind::File))
+                    } else {
+                        (at, |p| p.kind(a10::fd::Kind::Direct))
                     })
-                }),
+                } else {
+                    None
+                };
+            (
+                fut_late(
+                    fut_,
+                    |o, prod| {
+                        io_err(o).map(|[r, w_]| {
+                            let a = take_fd(r, prod);
+                            let b = take_fd(w_, prod);
+                            Val::Fds(vec![a, b])
+                        })
+                    },
+                    late,
+                ),
                 exp(|rec, _, _, _| {
                     Val::Fds(
                         rec.fds_issued
